@@ -21,6 +21,7 @@ RULE = ("(a) exhaustive enumeration of a configuration lattice: 16 flag combinat
         "emitted token is a vocabulary key. Non-trivial: every vocabulary case (all configurations differ from the two the "
         "suite builds) and closure cases with >= 1 note. Distinct by case digest. exhaustive=true refers to part (a).")
 RULE = RULE + " Rounds e-g: signature ranges excluding 8/8, inputs assembled from Bar objects / a Composition, table integrity after looking up non-members."
+RULE = RULE + " Round h: high-resolution vocabularies (ppqn up to 10000, fields of four and more digits), insert_bar_token=False."
 ASSUMPTIONS = ["velocity_bins <= 127", "exceptions other than TokenisationException on deliberately invalid ('wild') input are counted as "
                "inconclusive, not as closure violations"]
 TIERS = {"quick": dict(shards=8, examples=350, enum_shards=8, lattice="quick"),
@@ -69,6 +70,7 @@ def _closure(draw, shard, nshards):
         # the input sequences are assembled from Bar objects (per-bar sequences shorter than the bar, padded by Bar, joined with
         # Bar.to_sequence) or taken from a Composition, the way a user builds a piece bar by bar
         case["via"] = draw(st.sampled_from(["bars_direct", "composition"]))
+    case["no_bar_token"] = draw(st.integers(0, 4)) == 0
     return case
 
 
@@ -81,8 +83,24 @@ def _shapes(draw, shard, nshards):
     return {"kind": "shapes", "cfg": cfg}
 
 
+@st.composite
+def _high_resolution(draw, shard, nshards):
+    """vocabularies of tokenisers that work at a DAW-like resolution: step sizes / note values of 1000 ticks and more give token
+    fields with four and five digits"""
+    cfg = draw(T.config(shard=shard, nshards=nshards, max_tracks=2))
+    p = draw(st.sampled_from([480, 960, 1000, 384, 10000]))
+    cfg["ppqn"] = p
+    cfg["velocity_bins"] = draw(st.integers(1, 4))
+    lo = cfg["pitch_range"][0]
+    cfg["pitch_range"] = [lo, min(127, lo + draw(st.integers(0, 1)))]
+    cfg["step_sizes"] = draw(st.one_of(st.none(), st.just([p // 4, p // 2, p, 2 * p, 4 * p])))
+    cfg["note_values"] = draw(st.one_of(st.none(), st.just([p // 2, p, 2 * p, 4 * p]), st.just([p, 3 * p, 100000])))
+    cfg["unit"] = p // 4
+    return {"kind": "vocab", "cfg": cfg}
+
+
 def strategy(params, shard, nshards):
-    return st.one_of(_closure(shard, nshards), _wild(shard, nshards), _shapes(shard, nshards))
+    return st.one_of(_closure(shard, nshards), _wild(shard, nshards), _shapes(shard, nshards), _high_resolution(shard, nshards))
 
 
 def _apply_edits(piece, edits):
@@ -271,7 +289,11 @@ def check(case):
             out.inconclusive = f"assembly-raised:{type(e).__name__}"
             return out
     try:
-        tokens = tok.tokenise(seqs)
+        if case.get("no_bar_token"):
+            out.label("insert_bar_token=False")
+            tokens = tok.tokenise(seqs, insert_bar_token=False, state_dict={})
+        else:
+            tokens = tok.tokenise(seqs)
     except TokenisationException:
         out.label("not-accepted")      # that valid pieces are accepted is C01's clause, not C02's
         return out
